@@ -59,16 +59,12 @@ Definition explain (lines : list (list N)) (o : obs) : N :=
   let r := o_rng o in
   let ln := line_at lines (sl r) in
   let reqln := line_at lines (o_pl o) in
-  (* bit 1 (directive_range_end_unset) was repaired in /repo 46ef8ab and is not explained any more *)
-  if negb (o_feat o =? 10)%N &&                                                  (* completion edits are computed in UTF-16 units: not this finding *)
-          (has_nonbmp ln || has_nonbmp (line_at lines (el r))) &&
-          (obs_mask lines (mkObs (o_feat o) (o_pl o) (o_pc o) (as_rune_columns lines r) (o_text o) (o_code o)) =? 0)%N
-       then 2%N                                                                        (* nonbmp_rune_columns: right when read as rune columns *)
-  else if (o_code o =? 2)%N && negb ((o_feat o =? 1)%N) then 4%N                      (* payee_range_is_an_estimate *)
+  (* repaired in /repo and not explained any more: bit 1 directive_range_end_unset (46ef8ab),
+     bit 2 nonbmp_rune_columns and bit 64 tag_columns_are_byte_offsets (6efc7b5) *)
+  if (o_code o =? 2)%N && negb ((o_feat o =? 1)%N) then 4%N                           (* payee_range_is_an_estimate *)
   else if (o_code o =? 4)%N && (sl r =? el r) &&
           match o_text o with Some t => is_infix t (text_under lines r) | None => false end then 8%N   (* commodity_range_with_quotes_or_blanks *)
   else if (o_feat o =? 6)%N then 16%N                                                 (* link_range_includes_keyword *)
-  else if (o_code o =? 5)%N && (has_nonascii ln || has_nonascii reqln) then 64%N      (* tag_columns_are_byte_offsets *)
   else 0%N.
 
 Definition known (c : case) : N :=
@@ -78,6 +74,7 @@ Definition known (c : case) : N :=
   if existsb (fun k => (k =? 0)%N) kinds then 0%N
   else if negb (laminar (map o_rng (filter (fun o => (o_feat o =? 4)%N) (observations c)))) then 0%N
   else if negb (forallb (fun f => (0 <=? fst f) && (fst f <=? snd f) && (snd f <? Z.of_nat (length lines))) (folds c)) then 0%N
-  else fold_left N.lor kinds (if folds_laminar (folds c) then 0%N else 32%N).             (* 32: fold_ends_on_next_entry *)
+  else if negb (folds_laminar (folds c)) then 0%N    (* bit 32 (fold_ends_on_next_entry) was repaired in /repo: overlapping folds are a violation again *)
+  else fold_left N.lor kinds 0%N.
 
 Definition judge_all := judge_with tie_ok oracle_ok known.
